@@ -206,26 +206,26 @@ package registry
 //@   axiom strip-unsafe: strip("unsafe") == "unsafe" -- instance of stripVendorPath/post:no-vendor (verified, functional)
 //@   axiom refs-typeparam-tuple: (isType(t, *types.TypeParam) || isType(t, *types.Tuple)) ==> forall((*types.Package)(p), !refs(t, p))
 //@   loop 1 invariant inv: piInv(m, imports) && i >= 0
-//@   loop 1 invariant covered: (as(t, *types.Named).Obj().Pkg() != nil ==> cov(imports, as(t, *types.Named).Obj().Pkg())) && forall((*types.Package)(p), k, 0 <= k && k < i && refs(targs.At(k), p) ==> cov(imports, p))
+//@   loop 1 invariant {C01,C02,C10,C11} covered: (as(t, *types.Named).Obj().Pkg() != nil ==> cov(imports, as(t, *types.Named).Obj().Pkg())) && forall((*types.Package)(p), k, 0 <= k && k < i && refs(targs.At(k), p) ==> cov(imports, p))
 //@   loop 2 invariant inv: piInv(m, imports) && i >= 0
-//@   loop 2 invariant covered: (as(t, *types.Alias).Obj().Pkg() != nil ==> cov(imports, as(t, *types.Alias).Obj().Pkg())) && forall((*types.Package)(p), k, 0 <= k && k < i && refs(targs.At(k), p) ==> cov(imports, p))
+//@   loop 2 invariant {C01,C02,C10,C11} covered: (as(t, *types.Alias).Obj().Pkg() != nil ==> cov(imports, as(t, *types.Alias).Obj().Pkg())) && forall((*types.Package)(p), k, 0 <= k && k < i && refs(targs.At(k), p) ==> cov(imports, p))
 //@   loop 3 invariant inv: piInv(m, imports) && i >= 0
-//@   loop 3 invariant covered: forall((*types.Package)(p), k, 0 <= k && k < i && refs(as(t, *types.Union).Term(k).Type(), p) ==> cov(imports, p))
+//@   loop 3 invariant {C01,C02,C10,C11} covered: forall((*types.Package)(p), k, 0 <= k && k < i && refs(as(t, *types.Union).Term(k).Type(), p) ==> cov(imports, p))
 //@   loop 4 invariant inv: piInv(m, imports) && i >= 0
-//@   loop 4 invariant covered: forall((*types.Package)(p), k, 0 <= k && k < i && refs(as(t, *types.Signature).Params().At(k).Type(), p) ==> cov(imports, p))
+//@   loop 4 invariant {C01,C02,C10,C11} covered: forall((*types.Package)(p), k, 0 <= k && k < i && refs(as(t, *types.Signature).Params().At(k).Type(), p) ==> cov(imports, p))
 //@   loop 5 invariant inv: piInv(m, imports) && i >= 0
-//@   loop 5 invariant covered: forall((*types.Package)(p), k, 0 <= k && k < as(t, *types.Signature).Params().Len() && refs(as(t, *types.Signature).Params().At(k).Type(), p) ==> cov(imports, p)) && forall((*types.Package)(p), k, 0 <= k && k < i && refs(as(t, *types.Signature).Results().At(k).Type(), p) ==> cov(imports, p))
+//@   loop 5 invariant {C01,C02,C10,C11} covered: forall((*types.Package)(p), k, 0 <= k && k < as(t, *types.Signature).Params().Len() && refs(as(t, *types.Signature).Params().At(k).Type(), p) ==> cov(imports, p)) && forall((*types.Package)(p), k, 0 <= k && k < i && refs(as(t, *types.Signature).Results().At(k).Type(), p) ==> cov(imports, p))
 //@   loop 6 invariant inv: piInv(m, imports) && i >= 0
-//@   loop 6 invariant covered: forall((*types.Package)(p), k, 0 <= k && k < i && refs(as(t, *types.Struct).Field(k).Type(), p) ==> cov(imports, p))
+//@   loop 6 invariant {C01,C02,C10,C11} covered: forall((*types.Package)(p), k, 0 <= k && k < i && refs(as(t, *types.Struct).Field(k).Type(), p) ==> cov(imports, p))
 //@   loop 7 invariant inv: piInv(m, imports) && i >= 0
-//@   loop 7 invariant covered: forall((*types.Package)(p), k, 0 <= k && k < i && refs(as(t, *types.Interface).ExplicitMethod(k).Type(), p) ==> cov(imports, p))
+//@   loop 7 invariant {C01,C02,C10,C11} covered: forall((*types.Package)(p), k, 0 <= k && k < i && refs(as(t, *types.Interface).ExplicitMethod(k).Type(), p) ==> cov(imports, p))
 //@   loop 8 invariant inv: piInv(m, imports) && i >= 0
-//@   loop 8 invariant covered: forall((*types.Package)(p), k, 0 <= k && k < as(t, *types.Interface).NumExplicitMethods() && refs(as(t, *types.Interface).ExplicitMethod(k).Type(), p) ==> cov(imports, p)) && forall((*types.Package)(p), k, 0 <= k && k < i && refs(as(t, *types.Interface).EmbeddedType(k), p) ==> cov(imports, p))
+//@   loop 8 invariant {C01,C02,C10,C11} covered: forall((*types.Package)(p), k, 0 <= k && k < as(t, *types.Interface).NumExplicitMethods() && refs(as(t, *types.Interface).ExplicitMethod(k).Type(), p) ==> cov(imports, p)) && forall((*types.Package)(p), k, 0 <= k && k < i && refs(as(t, *types.Interface).EmbeddedType(k), p) ==> cov(imports, p))
 //@   ensures wf: wfK(m.registry)
 //@   ensures entries: entriesHavePkg(imports)
 //@   ensures packages-kept: forall((*Package)(q), old(allocated(q)) ==> q.pkg == old(q.pkg))
 //@   ensures keys-only-added: keysKept(imports)
-//@   ensures{C01,C11} every-qualified-package-imported: forall((*types.Package)(p), refs(t, p) ==> cov(imports, p))
+//@   ensures{C01,C02,C10,C11} every-qualified-package-imported: forall((*types.Package)(p), refs(t, p) ==> cov(imports, p))
 
 //@ -- registry invariant (K): every key of the import map is the canonical path of a non-nil
 //@ -- entry with a package object, and is never the destination package itself
